@@ -317,7 +317,7 @@ TRUSTED = ["Coq 8.16.1 kernel (coqc; vm_compute in Examples and in the two refut
            "references of WHATWG escaping / the tokenizer fragment, oracles)",
            "hand transcription of WHATWG 'escaping a string' and of the Data / attribute-value / character-reference "
            "tokenizer fragment (coq/HtmlSer/SerSpec.v)",
-           "memchr2/memchr3 modelled as first-index search; rcdom's SerializeOp deque modelled as pre-order recursion"]
+           "memchr2/memchr3 modelled as first-index search"]
 ASSUME = ["text, attribute values and names are valid UTF-8 (StrTendril / LocalName guarantee it)",
           "round trip: vocabulary = names outside every tag!()/local_name!()/tag-set mention of tree_builder/*.rs and "
           "serialize/mod.rs; text and attribute values free of CR and NUL; re-parse with discard_bom = false under a div",
